@@ -253,6 +253,7 @@ PROPS = {
     },
     "C02": {
         "units": ["decode"],
+        "native_cex": "c02_codec_replay",
         "kani": {"quick": ["c13_read_cmr_complete", "c13_read_cmr_short_complete"], "thorough": ["c13_read_fail_entropy_complete"]},
         "level": "proof",
         "level_text": "Deductive proof (Verus) on the real decode_node (src/bit_encoding/decode.rs): for every input stream and every node position it terminates without "
@@ -276,6 +277,7 @@ PROPS = {
         "units": ["encode"],
         "kani": {"quick": [], "thorough": ["c01_encode_hash_bounded"]},
         "fallback": {"encode_hash": ["c01_encode_hash_bounded"]},
+        "native_cex": "c02_codec_replay",
         "level": "proof",
         "level_text": "Deductive proof (Verus) on the real encode_node and encode_hash (src/bit_encoding/encode.rs): for every node kind, every position and child distance, "
                       "encode_node writes exactly ncode(abstract content of the node) - the same function that decode_node's consumed bits are proved to equal (unit `decode`, C02) - "
